@@ -246,10 +246,10 @@ def run(ctx):
         pl = "%d 0 0 2 W 3 %s 1 5 3 R 3 %s" % (be, "ab" * 32, "ab" * 32)
         pth = os.path.join(vlib.BUILD, "C20", "probe_%d.txt" % os.getpid())
         open(pth, "w").write(pl + "\n")
-        rc, out, _ = vlib.sh2([impl, pth], timeout=15)
+        rc, out, _ = vlib.sh2([impl, pth], timeout=45)
         os.remove(pth)
         if rc == 124 or out.strip() != "ok | ok:1:1804:2898":
-            probe_hang.append((be, pl, "timeout after 15 s" if rc == 124 else out.strip()))
+            probe_hang.append((be, pl, "timeout after 45 s" if rc == 124 else out.strip()))
     for be, pl, got in probe_hang:
         ctx.violation("OpenDALBackend::write_bytes never returns when the BytesList has an empty chunk in front of a non-empty one",
                       {"case": pl, "impl": got, "expected": "ok | ok:1:1804:2898", "how_to_replay": "echo '<case>' | timeout 15 .cache/target*/debug/c20 -"},
